@@ -5,7 +5,6 @@ import (
 	"encoding/json"
 	"fmt"
 	"testing"
-	"testing/synctest"
 	"time"
 
 	"gitlab.com/gomidi/midi/v2"
@@ -225,7 +224,7 @@ func (s *Live) observe(env *core.Env, opts LiveOpts) (obs liveObs) {
 		stop()
 	}
 	if env != nil && env.T != nil {
-		synctest.Test(env.T, body)
+		runBubble(env, body)
 	} else {
 		body(nil)
 	}
